@@ -29,6 +29,9 @@ type Net struct {
 type Opts struct {
 	ReuseLocal bool
 	SCMPAuth   bool
+	// BFD, when set, says which external interfaces have BFD enabled. Nobody
+	// runs the sessions in this fixture, so such a link stays down.
+	BFD func(ia addr.IA, ifID uint16) bool
 }
 
 // New builds one real data plane per border router.
@@ -44,6 +47,7 @@ func New(t *simtopo.Topo, o Opts) (*Net, error) {
 				f := as.Ifaces[id]
 				cfg.Ifs = append(cfg.Ifs, rfix.IfSpec{
 					ID: id, LinkTo: f.LinkType, Remote: f.RemoteIA, Owned: f.BR == b, Sibling: f.BR, MTU: int(f.MTU),
+					BFD: o.BFD != nil && f.BR == b && o.BFD(ia, id),
 				})
 			}
 			s, err := rfix.NewStar(cfg)
